@@ -645,6 +645,13 @@ type bsConfig struct {
 // bsConfigs: the exhaustive BlockSem runs (alphabet, maximal number of lines); the model-level
 // laws (quote prefix = C08, concatenation = C09) are evaluated by TLC where laws is set.
 func bsConfigs(c *Ctx) []bsConfig {
+	if v := os.Getenv("C02_BS"); v != "" { // development aid: one exhaustive configuration "alphabet:lines"
+		var a string
+		var n int
+		if _, err := fmt.Sscanf(strings.Replace(v, ":", " ", 1), "%s %d", &a, &n); err == nil {
+			return []bsConfig{{a, n, false, 0}}
+		}
+	}
 	if c.Thorough() {
 		return []bsConfig{{"tiny", 6, true, 0}, {"small", 4, false, 0}, {"small", 3, true, 0}, {"lists", 4, false, 0}, {"lists", 3, true, 0}, {"quotes", 3, true, 0}, {"leaves", 3, false, 0}, {"leaves", 2, true, 0}, {"wide", 2, true, 0}, {"html", 3, true, 0}, {"tabs", 2, false, 0}, {"tabs2", 3, false, 0}, {"refs", 3, true, 0}}
 	}
@@ -652,6 +659,9 @@ func bsConfigs(c *Ctx) []bsConfig {
 }
 
 func bsSimConfigs(c *Ctx) []bsConfig {
+	if os.Getenv("C02_BS") != "" {
+		return nil
+	}
 	return []bsConfig{{"wide", 6, false, c.Pick(16000, 400000)}, {"lists", 8, false, c.Pick(8000, 400000)}, {"small", 7, false, c.Pick(6000, 200000)}, {"html", 6, false, c.Pick(8000, 300000)}, {"tabs", 5, false, c.Pick(12000, 400000)}, {"refs", 6, false, c.Pick(12000, 300000)}}
 }
 
